@@ -88,7 +88,12 @@ def extra_positions():
     return [T.binop("Eq", T.call("date", d), MARK), T.binop("Gt", T.call("now"), MARK), T.binop("Eq", d, MARK), T.binop("Eq", MARK, T.call("year", d)),
             T.binop("Eq", n, MARK), T.binop("In", T.call("date", d), T.lst(MARK, T.Str("2020-01-01"))),
             T.binop("In", s, T.lst(T.Str("k"), MARK, T.Str("j"), MARK)), T.binop("In", s, T.lst(MARK, T.Str("q, b"), T.Str("a, b"))),
-            T.binop("In", s, T.lst(MARK_K, MARK_J)), T.binop("Or", T.binop("Eq", s, MARK_K), T.binop("Eq", T.I("u"), MARK_J))]
+            T.binop("In", s, T.lst(MARK_K, MARK_J)), T.binop("Or", T.binop("Eq", s, MARK_K), T.binop("Eq", T.I("u"), MARK_J)),
+            # MIXED lists: the string comes after an element of another kind (a renderer chosen by the first element must not serve the rest)
+            T.binop("In", n, T.lst(T.Int(1), MARK)), T.binop("In", s, T.lst(T.Flt("1.5"), MARK, T.Int(2))), T.binop("In", s, T.lst(T.NULL, MARK)),
+            T.binop("In", s, T.lst(T.Bool(True), MARK)), T.binop("In", s, T.lst(("GUID", "123e4567-e89b-12d3-a456-426614174000"), MARK)),
+            T.binop("In", d, T.lst(("Date", "2020-01-01"), MARK)), T.binop("In", d, T.lst(("DateTime", "2020-01-01T00:00:00Z"), MARK_K, MARK_J)),
+            T.binop("In", s, T.lst(s, MARK)), T.binop("In", s, T.lst(T.call("tolower", s), MARK))]
 
 
 def positions():
@@ -222,8 +227,12 @@ def _payload_unit(unit):
                         except Exception as e:  # noqa
                             got = ("EXC", type(e).__name__, str(e)[:200])
                         sub = Acc()
-                        SC.judge(sub, "sqlite-exec", term, text_p, cols, got, ["like-field-wildcards"],
-                                 {"layer": "execute", "sql": res[1], "payload": payload})
+                        try:
+                            SC.judge(sub, "sqlite-exec", term, text_p, cols, got, ["like-field-wildcards"],
+                                     {"layer": "execute", "sql": res[1], "payload": payload})
+                        except KeyError:
+                            # a literal kind the reference evaluator does not model (GUID, date in a mixed list): token-level judgement only
+                            acc.count("exec_positions_outside_reference_evaluator")
                         for v in sub.violations:
                             if v["finding"] == "sqlite-exec:like-field-wildcards":
                                 acc.count("exec_rows_explained_by_C01_finding_like_field_wildcards", v["n"])
